@@ -501,6 +501,12 @@ func c06Regroup(group map[string]c06Store, next *int, st c06Step, kindOf, kindAf
 	}
 	switch st.op {
 	case "copy", "slice", "rest": // same top-level storage
+		if st.op != "copy" && kindAfter(n.Name) == "*gt.Map" {
+			// rest() and a range slice of a map are cut off their source at the first update of either (42e0d7c): unlike
+			// the slice of an array they never show a later write to the other side
+			group[n.Name] = c06Store{top: fresh, deep: deepOf(false)}
+			return
+		}
 		if g, ok := first(); ok {
 			group[n.Name] = g
 			return
